@@ -178,7 +178,8 @@ class Ctx:
                     v = ev.ev(call.args[0])
                 except _oe.Unsupported:
                     return _oe.NOT_MODELLED
-                if isinstance(v, _oe.Obj) and "_cls" in v.__dict__ and set(v.__dict__) != {"_cls"}:
+                if isinstance(v, _oe.Obj) and "_cls" in v.__dict__ and set(v.__dict__) != {"_cls"} and not (call.func.id == "len" and "len" in v.__dict__):
+                    # (a model object that carries its own `len` is a stand-in whose length is part of the model)
                     dm = prog.find_method(v.__dict__["_cls"], {"len": "__len__", "str": "__str__", "bool": "__bool__"}[call.func.id])
                     if dm is not None:
                         fake = _ast.copy_location(_ast.Call(func=_ast.Attribute(value=call.args[0], attr=dm.name, ctx=_ast.Load()), args=[], keywords=[]), call)
